@@ -173,3 +173,36 @@ func genMixedTermBounded(t *rapid.T) *Case {
 	c.Cfg.Cap = rapid.SampledFrom([]int{1, 1, 2}).Draw(t, "cap_bounded")
 	return c
 }
+
+// genMixedSrvDeadline: mixed workload in which one RPC carries a grpc-timeout header, i.e. a deadline that exists on the serving
+// end only: when virtual time passes it the handler's context ends while the caller - unaware - keeps sending, so request
+// frames still arrive for a stream whose receiver was cancelled. A slow or parked reader must never be handed what arrives after.
+func genMixedSrvDeadline(t *rapid.T) *Case {
+	c := genMixed(t)
+	c.Prop = "mixed_srvdeadline"
+	// the victim streams requests
+	i := rapid.IntRange(0, len(c.RPCs)-1).Draw(t, "victim")
+	v := &c.RPCs[i]
+	if !reqStreams(v.Shape) {
+		v.Shape = rapid.SampledFrom([]string{"cstream", "bidi"}).Draw(t, "victim.shape")
+		v.Via = ""
+		if !respStreams(v.Shape) && len(v.Resp) != 1 {
+			v.Resp = []int{5}
+		}
+		v.HOps = nil
+		for j := range v.Resp {
+			v.HOps = append(v.HOps, MDOp{Kind: "send", Idx: j})
+		}
+	}
+	for len(v.Req) < 4 {
+		v.Req = append(v.Req, rapid.SampledFrom([]int{0, 5, 300, 16381, 20000}).Draw(t, fmt.Sprintf("victim.req%d", len(v.Req))))
+	}
+	v.GrpcTimeout = []string{"50m"}
+	v.HStallRecv = rapid.Bool().Draw(t, "victim.slow_reader")
+	c.Events = []Event{{Kind: "advance", Ms: 100, After: rapid.IntRange(0, 30).Draw(t, "deadline.after")}}
+	c.Yields = nil
+	if rapid.IntRange(0, 2).Draw(t, "park_reader") == 0 {
+		c.Yields = append(c.Yields, Yield{Point: "server.read.beforeDequeue", Nth: rapid.IntRange(0, 8).Draw(t, "park_reader.nth"), Kind: "park"})
+	}
+	return c
+}
